@@ -558,7 +558,7 @@ PPL::Grid::relation_with(const Grid_Generator& g) const {
   }
 
   // The empty grid cannot subsume a generator.
-  if (marked_empty()) {
+  if (is_empty()) {
     return Poly_Gen_Relation::nothing();
   }
 
@@ -588,7 +588,7 @@ PPL::Grid::relation_with(const Generator& g) const {
   }
 
   // The empty grid cannot subsume a generator.
-  if (marked_empty()) {
+  if (is_empty()) {
     return Poly_Gen_Relation::nothing();
   }
 
